@@ -474,6 +474,11 @@ func ReadPMT(r io.Reader, pid int) (PMT, error) {
 			continue
 		}
 		_, err = pmtAcc.WritePacket(pkt)
+		if err == gots.ErrNoPayloadUnitStartIndicator {
+			// the stream was joined in the middle of a section of this PID:
+			// keep looking for the packet that starts the next one
+			continue
+		}
 		if err == gots.ErrAccumulatorDone {
 			pmt, err = NewPMT(pmtAcc.Bytes())
 			if err != nil {
